@@ -679,7 +679,16 @@ def node_str_int(t, name):
     if op == 'zext':
         return name(a[1])
     if op == 'bvmul' and (a[0].op == 'const' or a[1].op == 'const'):
-        return '(mod (* %s %s) %d)' % (name(a[0]), name(a[1]), 1 << t.sort)
+        k, x = (a[0], a[1]) if a[0].op == 'const' else (a[1], a[0])
+        cst = k.args[0]
+        m = 1 << t.sort
+        if cst <= 16:
+            # c*x wraps at most c-1 times: a linear ite chain instead of `mod`
+            body = '(- p %d)' % ((cst - 1) * m)
+            for j in range(cst - 2, -1, -1):
+                body = '(ite (< p %d) %s %s)' % ((j + 1) * m, 'p' if j == 0 else '(- p %d)' % (j * m), body)
+            return '(let ((p (* %d %s))) %s)' % (cst, name(x), body)
+        return '(mod (* %s %s) %d)' % (name(a[0]), name(a[1]), m)
     if op == 'bvneg':
         return '(mod (- %s) %d)' % (name(a[0]), 1 << t.sort)
     if op == 'uf':
